@@ -121,3 +121,10 @@ Qed.
 From LJT Require Import model.LosslessLazy.
 Lemma gen_lazy_facts : gen_min_get_bits = Z.of_nat MIN_GET_BITS.
 Proof. reflexivity. Qed.
+
+From LJT Require Import model.LosslessBitReg.
+(* a byte is loaded only while bits_left < MIN_GET_BITS, so bits_left + 8 fits bit_buf_type *)
+Lemma gen_bitreg_facts :
+  gen_bit_buf_size = BIT_BUF_SIZE /\ gen_min_get_bits = Z.of_nat MIN_GET_BITS /\
+  (gen_min_get_bits - 1) + 8 <= gen_bit_buf_size.
+Proof. split; [reflexivity|]. split; [reflexivity|]. vm_compute. discriminate. Qed.
